@@ -123,6 +123,16 @@ def located_variants(doc):
          "req": {"form": "none", "b": {"k": "none", "n": "", "props": [], "allOf": []}},
          "resps": [{"code": "200", "annot": "", "spec": {"form": "param", "b": {"k": "any", "n": "", "props": [], "allOf": []}}, "headers": False}]}]}
     res = []
+    # no other Path declaration in the document: a second declaration of the same parameter elsewhere would be a
+    # fault of its own, with its own place
+    doc = copy.deepcopy(doc)
+    for b in doc:
+        if b["t"] == "url":
+            b["pathdecl"] = []
+            for mm in b["methods"]:
+                mm["pathdecl"] = []
+        elif b["t"] == "method":
+            b["m"]["pathdecl"] = []
     for nm, rd in reject_variants(doc):
         if nm not in SINGLE_SITE:
             continue
